@@ -66,10 +66,11 @@ FLOORS = {
               "shared_adds": 9500, "slice_adds": 20000, "slice_reads": 239000, "resets_in_place": 5800,
               "resets_clear": 8700, "slice_resets": 7100, "scalar_histories": 288, "value_histories": 48,
               "mon_add_sensitivity": 34000},
-    "thorough": {"cases_held": 1500, "histories": 150000, "world_comparisons": 700000,
-                 "entries_compared": 30_000_000, "alias_probes": 100000, "slice_adds": 100000,
-                 "resets_in_place": 30000, "slice_resets": 30000, "slice_reads": 600000,
-                 "mon_add_sensitivity": 150000},
+    "thorough": {"cases_held": 4500, "distinct_nontrivial": 975, "histories": 226000, "operations": 1_490_000,
+                 "world_comparisons": 3_100_000, "entries_compared": 400_000_000, "alias_probes": 600000,
+                 "shared_adds": 125000, "slice_adds": 290000, "slice_reads": 2_600_000, "resets_in_place": 91000,
+                 "resets_clear": 137000, "slice_resets": 92000, "scalar_histories": 3840, "value_histories": 480,
+                 "mon_add_sensitivity": 490000},
 }
 TIMEOUT_CASE = 300
 UNREACHABLE = [
@@ -100,20 +101,11 @@ def plan(tier, seed):
                 for b in range(len(ALPHABET)):
                     cases.append({"fam": "enum", "var": vi, "prefix": [a, b], "L": 4})
         nrand, nscal, nkind = 6400, 640, 160
-    # interleave so that the 16 shards get a similar mix
-    rnd = [{"fam": "rand", "k": i, "n": RAND_PER_CASE} for i in range(nrand)]
-    rnd += [{"fam": "scalar", "k": i, "n": 12} for i in range(nscal)]
-    rnd += [{"fam": "kinds", "k": i, "n": 6} for i in range(nkind)]
-    out = []
-    ie, ir = 0, 0
-    while ie < len(cases) or ir < len(rnd):
-        if ie < len(cases):
-            out.append(cases[ie])
-            ie += 1
-        if ir < len(rnd):
-            out.append(rnd[ir])
-            ir += 1
-    return out
+    # families stay contiguous: case t goes to shard t % nshards, so every shard gets the same share (+-1) of each
+    cases += [{"fam": "rand", "k": i, "n": RAND_PER_CASE} for i in range(nrand)]
+    cases += [{"fam": "scalar", "k": i, "n": 12} for i in range(nscal)]
+    cases += [{"fam": "kinds", "k": i, "n": 6} for i in range(nkind)]
+    return cases
 
 
 # =========================================================================== index expressions
